@@ -43,45 +43,69 @@ Proof. intros ctx a v tv. exact (assert_matches1_contained cfg ctx good a v tv).
 Print Assumptions C08_model_total.
 
 (* ---- the wrapper half ------------------------------------------------------------------------------------------
-   over the call protocol regenerated from function_call.py / fn_deco_pedantic.py: whatever leaves a call of a
-   @pedantic function is a PedanticException, an exception of the body, or Python's own TypeError for a call the
-   signature does not accept - for every signature, call, body and every checker raising only PedanticExceptions.
-   FULL STATEMENT (without `machinery_ok`) is false on the current tree: see the _refuted theorem below
-   (known finding of the source-text heuristic family: FunctionCall indexes args[0] / full_name.split('.')[-2]). *)
+   over the call protocol regenerated from function_call.py / fn_deco_pedantic.py: for every call that Python itself
+   accepts for the undecorated function (`twin_accepts`), whatever leaves the call of the @pedantic function is a
+   PedanticException or an exception the body itself raised - for every signature, call, body and every checker
+   raising only PedanticExceptions.
+   FULL STATEMENT (without `machinery_ok` and `same_positionals`) is false on the current tree: the two _refuted
+   theorems below (known findings of the source-text heuristic family: FunctionCall indexes args[0] when the
+   receiver arrives by keyword; a method whose text mentions @staticmethod is called without its receiver). *)
 Theorem C08_generated_protocol_good : pc_good Gen.Pedantic.pedantic_cfg = true.
 Proof. vm_compute. reflexivity. Qed.
 Print Assumptions C08_generated_protocol_good.
 
 Theorem C08_wrapper_adds_nothing_partial : forall check consumes,
   (forall a v tv e tv', check a v tv = (Raise e, tv') -> is_pedantic e = true) ->
-  forall f c bd, machinery_ok f c ->
-  allowed f c bd (fst (run Gen.Pedantic.pedantic_cfg check consumes f c bd)).
+  forall f c bd, machinery_ok f c -> same_positionals Gen.Pedantic.pedantic_cfg f c -> twin_accepts f c ->
+  allowed bd (fst (run Gen.Pedantic.pedantic_cfg check consumes f c bd)).
 Proof. intros check consumes Hc. exact (wrapper_adds_nothing _ check consumes C08_generated_protocol_good Hc). Qed.
 Print Assumptions C08_wrapper_adds_nothing_partial.
 
+(* the two guards in terms of the call: plain functions and instance methods called the ordinary way *)
+Theorem C08_guards_hold_for_ordinary_calls : forall f c,
+  drops_args Gen.Pedantic.pedantic_cfg f = false -> f_bound f = None -> c_recv c = c_twin_recv c ->
+  same_positionals Gen.Pedantic.pedantic_cfg f c.
+Proof. exact (same_positionals_plain Gen.Pedantic.pedantic_cfg). Qed.
+Print Assumptions C08_guards_hold_for_ordinary_calls.
+
 (* with the modelled assert_value_matches_type as the checker the hypothesis on `check` is C08_model_total *)
-Theorem C08_wrapper_with_model_checker_partial : forall ctx consumes f c bd, machinery_ok f c ->
-  allowed f c bd (fst (run Gen.Pedantic.pedantic_cfg (assert_matches1 cfg ctx) consumes f c bd)).
+Theorem C08_wrapper_with_model_checker_partial : forall ctx consumes f c bd,
+  machinery_ok f c -> same_positionals Gen.Pedantic.pedantic_cfg f c -> twin_accepts f c ->
+  allowed bd (fst (run Gen.Pedantic.pedantic_cfg (assert_matches1 cfg ctx) consumes f c bd)).
 Proof.
   intros ctx consumes f c bd. apply C08_wrapper_adds_nothing_partial.
   intros a v tv e tv' H. pose proof (C08_model_total ctx a v tv) as Ht. rewrite H in Ht. exact Ht.
 Qed.
 Print Assumptions C08_wrapper_with_model_checker_partial.
 
-(* the excluded region really violates the full statement: K.plain(self=k, x=1) - the receiver passed by keyword *)
+(* excluded region 1 (not machinery_ok): K.plain(self=k, x=1) - the receiver passed by keyword: IndexError *)
 Theorem C08_wrapper_index_error_refuted : exists f c bd,
+  twin_accepts f c /\
   fst (run Gen.Pedantic.pedantic_cfg (assert_matches1 cfg (fun _ => None)) (fun _ _ => false) f c bd) = Raise IndexErrorC
-  /\ ~ allowed f c bd (Raise IndexErrorC).
+  /\ ~ allowed bd (Raise IndexErrorC).
 Proof.
   exists (method "plain"%string self_name [par x_ PosOrKw (ACls CInt) None] plain_text),
          (kwcall [] [(self_name, k_inst); (x_, VInt 1%Z)]), (returns VNone).
-  split; [vm_compute; reflexivity|].
-  intros [H | [[b [cons H]] | [pos H]]].
-  - vm_compute in H. discriminate H.
-  - vm_compute in H. discriminate H.
-  - apply py_bind_type_error in H. discriminate H.
+  split; [eexists; vm_compute; reflexivity|]. split; [vm_compute; reflexivity|].
+  intros [H | [b [cons H]]]; vm_compute in H; discriminate H.
 Qed.
 Print Assumptions C08_wrapper_index_error_refuted.
+
+(* excluded region 2 (machinery_ok but not same_positionals): a method of a @pedantic_class whose source text mentions
+   @staticmethod, called k.m(a=1): the wrapper calls the function WITHOUT the receiver: Python's TypeError
+   "missing 1 required positional argument: 'self'" although the undecorated call is fine *)
+Theorem C08_wrapper_receiver_dropped_refuted : exists f c bd,
+  machinery_ok f c /\ twin_accepts f c /\
+  fst (run Gen.Pedantic.pedantic_cfg (assert_matches1 cfg (fun _ => None)) (fun _ _ => false) f c bd) = Raise TypeErrorC
+  /\ ~ allowed bd (Raise TypeErrorC).
+Proof.
+  exists (method "m"%string self_name [par a_ PosOrKw (ACls CInt) None] (tflags false true false true 1)),
+         (kwcall [k_inst] [(a_, VInt 1%Z)]), (returns (VInt 1%Z)).
+  split; [split; [intros _; discriminate | intros _ _ H; discriminate H]|].
+  split; [eexists; vm_compute; reflexivity|]. split; [vm_compute; reflexivity|].
+  intros [H | [b [cons H]]]; vm_compute in H; discriminate H.
+Qed.
+Print Assumptions C08_wrapper_receiver_dropped_refuted.
 
 (* non-vacuity: an inner checker that raises AttributeError / IndexError / RecursionError-like classes *)
 Example ex_inner_raises :
